@@ -125,7 +125,7 @@ PROPS = {
         'engines': [{'name': 'c12', 'timeout_quick': 600, 'timeout_thorough': 7200}, {'name': 'c17', 'timeout_quick': 600, 'timeout_thorough': 7200}],
         'trusted_base': ['mtbl_verify built from /repo/src/mtbl_verify.c against the freshly built library; decompression oracle'],
         'assumptions': ['damage is confined to one block\'s stored bytes or its 4-byte checksum field (the property\'s quantifier); a damaged length prefix or trailer is outside it',
-                        'T12c_bursts covers every error confined to 32 consecutive bit positions; double flips further apart are not covered by a theorem and are sampled by engine c12 on the real mtbl_verify and a verifying reader'],
+                        'T12c_bursts covers every error confined to 32 consecutive bit positions, T12d every odd number of flips, T12e_double_flips any two flips in a frame of at most 2^31 - 1 bits (blocks below 256 MiB; for longer frames two flips exactly 2^31 - 1 positions apart cancel - a property of the polynomial, outside what any implementation could detect); engine c12 samples all of these on the real mtbl_verify and a verifying reader'],
         'explanation': 'T12b: the verifying reader stops on any field/CRC mismatch whichever operation loads the block; mtbl_verify says OK iff every field matches; T12d: every odd-weight error is detected (parity of the CRC-32C register). Real mtbl_verify and a verify_checksums reader (iteration, get, seek, get_prefix, get_range) on damaged data / last-data / index blocks.',
     },
     'C13': {
